@@ -822,7 +822,9 @@ theorem readBlocks_acc (csize : Int) (s : GState) : ∀ (fuel : Nat) (buf : Byte
       · split
         · apply AcceptsR.readByte
           intro o
-          cases o <;> simp only <;> split <;> (first | err_lit | (split <;> (first | err_lit | ok_ret)))
+          cases o with
+          | none => err_lit
+          | some x => simp only; split <;> (first | err_lit | (split <;> (first | err_lit | ok_ret)))
         · err_lit
 
 theorem readCompressed_acc (fuel : Nat) (p : Proposal) (s : GState) : Acc (EQ s) s (readCompressed fuel p) := by
